@@ -34,6 +34,10 @@ pub fn gen_case(seed: u64, index: u64) -> Case {
         let shadow = rng.chance(1, 3);
         (gen::gen_history(&mut rng, &sw, len, rate), false, shadow)
     };
+    let mut ops = ops;
+    if !cfg!(miri) || index % 2 == 0 {
+        gen::insert_rand_ops(&mut ops, rs, !enumerate);
+    }
     Case {
         property: "C17".into(),
         seed,
